@@ -7,8 +7,8 @@ package zzharness
 import (
 	"bytes"
 	"fmt"
-	"os"
 	"math/rand/v2"
+	"os"
 	"sort"
 	"strings"
 	"testing"
@@ -73,6 +73,11 @@ func genTunnelPlan(r *rand.Rand) *ProxyPlan {
 		if q.Body > 0 && r.IntN(3) == 0 {
 			q.ChunkedReq = true
 		}
+		// (Expect: 100-continue is implemented in the client, PReq.Expect100, and not generated: on a
+		// tunnel the proxy sends no interim answer where plain proxying does, the client waits out
+		// its second and everything else is equal. Interim answers are outside C10 as built, see
+		// DESIGN 10.3a; a repair attempt showed that doing it properly - announcing the close
+		// when the content was never asked for - is not a small change.)
 		if q.Method == "GET" && r.IntN(3) == 0 {
 			q.Range = []string{"bytes=0-4", "bytes=2-", "bytes=-3", "bytes=5-1", "bytes=100000-"}[r.IntN(5)]
 		}
@@ -240,6 +245,9 @@ func runTunnelPlan(t *testing.T, planAny any, ctl Ctl) *Result {
 			}
 		}
 		// ---- C10.b: Tn vs P
+		if en.Interim != ep.Interim && en.Req.Expect100 {
+			res.violate("C10.b", "interim-response-differs-from-plain", "%s: a request with Expect: 100-continue got interim status %d through a tunnel and %d plain before sending its content (0: none within a second) [%s]", desc, en.Interim, ep.Interim, pd)
+		}
 		if en.Complete && ep.Complete {
 			if en.Status != ep.Status {
 				res.violate("C10.b", "status-differs-from-plain", "%s: status %d through a tunnel, %d plain [%s]", desc, en.Status, ep.Status, pd)
